@@ -84,6 +84,17 @@ def boom(c):
     return BOOMS[c % len(BOOMS)](c)
 
 
+class Cancelled(BaseException):
+    """What a callback gets when its task is cancelled (asyncio.CancelledError is a BaseException): used only for the
+    enter callbacks of an EXPLICIT initial activation with nothing else queued - there the outcome is the same as for any
+    failure (the activation is over, the state is stored, the machine is usable); elsewhere what a non-Exception failure
+    does to the queue is outside the model."""
+
+    def __init__(self, c):
+        super().__init__(f"cancelled {c}")
+        self.c = c
+
+
 class RetObj(list):
     """Unique, identity-comparable return value (list subclass so it may be truthy or falsy)."""
 
@@ -178,6 +189,7 @@ class Recorder:
         # "ctor_pre": inside a constructor before its first callback (attribute reads are the library resolving
         # names), "registering": inside add_listener / copy, "live": attribute reads are guard evaluations
         self.mode = "live"
+        self.in_explicit_activation = False   # inside sm.activate_initial_state() called by the driver
         self.runner = None      # set by Runner: cross-instance sends need the other machines
         self.chain = []         # slots on Python's call stack, outermost first (cross-instance sends)
         self.slot_by_id = {}    # id(machine) -> slot, for callbacks that run while another slot is being called
@@ -396,6 +408,8 @@ def make_callback(rt, c, cb, slot_getter=None):
                 and not rt.gv.get(cb["gname"], True))
         if boom:
             rt.end(c, True, slot)
+            if rt.scn.get("cancel_activation") and rt.in_explicit_activation and not rt.script.get(c):
+                raise Cancelled(c)
             raise globals()["boom"](c)
         rt.end(c, False, slot)
         if is_guard:
@@ -1091,7 +1105,7 @@ class Runner:
         return out
 
     def exc_rec(self, k, e):
-        if isinstance(e, Boom):
+        if isinstance(e, (Boom, Cancelled)):
             return {"kind": "Boom", "ev": "", "st": "", "c": e.c}
         if isinstance(e, KeyError) and e.args and isinstance(e.args[0], Boom):
             return {"kind": "Boom", "ev": "", "st": "", "c": e.args[0].c}
@@ -1292,8 +1306,10 @@ class Runner:
                 if api == "send" and step.get("spy"):
                     spied = self.install_spy(sm, step["ev"])
                 try:
+                    self.rt.in_explicit_activation = api == "activate"
                     r = self.call_api(sm, step)
                 finally:
+                    self.rt.in_explicit_activation = False
                     if spied is not None:
                         sm.__dict__.pop(step["ev"], None)
                         if spied:
@@ -1354,7 +1370,7 @@ class Runner:
                 return
             else:
                 raise ValueError(api)
-        except Exception as e:  # noqa: BLE001
+        except (Exception, Cancelled) as e:  # noqa: BLE001
             # (a copy that starts anew and fails while starting: the failure belongs to the would-be clone)
             self.ret_line(step["j"] if api == "copy" and step.get("reset") else i, ("exc", e))
             return
@@ -1396,12 +1412,15 @@ class Runner:
         self.rt.budget = step.get("budget", self.scn.get("budget", 0))
         self.rt.emit(line)
         try:
+            self.rt.in_explicit_activation = api == "activate"
             r = self.call_api(sm, step)
             if asyncio.iscoroutine(r) or asyncio.isfuture(r):
                 r = await r
-        except Exception as e:  # noqa: BLE001
+        except (Exception, Cancelled) as e:  # noqa: BLE001
+            self.rt.in_explicit_activation = False
             self.ret_line(i, ("exc", e))
             return
+        self.rt.in_explicit_activation = False
         self.ret_line(i, ("ret", r), cmp=api != "activate")
 
     def run_sync(self):
